@@ -297,11 +297,15 @@ def history_config(draw):
     steps = []
     nruns = 0
     for _ in range(draw(st.integers(2, 6))):
-        kind = draw(st.sampled_from(['run', 'run', 'run', 'restart', 'kill', 'add']))
+        kind = draw(st.sampled_from(['run', 'run', 'run', 'run', 'restart', 'kill', 'add', 'run_aborted']))
         if kind == 'run':
             n = draw(st.integers(0, 5))
             steps.append(['run', [100 * (nruns + 1) + j for j in range(n)], draw(st.integers(0, 2)), draw(st.sampled_from([0, 0, 1, 2]))])
             nruns += 1
+        elif kind == 'run_aborted':
+            # the user's input source raises in the middle of a run (the exception is the user's business; the pool must stay usable)
+            n = draw(st.integers(1, 5))
+            steps.append(['run_aborted', [100 * (nruns + 1) + 50 + j for j in range(n)], draw(st.integers(0, 2)), draw(st.integers(0, n))])
         elif kind == 'kill':
             steps.append(['kill', draw(st.integers(0, 3))])
         else:
@@ -316,12 +320,27 @@ def run_history(case):
     out = Out()
     sim = poolsim.Sim(dict(case, kills=0, inputs=[], poison={}, refuse=[]))
     known_dead = set()       # SimWorker incarnation ids the pool has been told about (died callback) in an earlier run
+    after_abort = False      # an earlier run was aborted by its input source with inputs / results still outstanding
     runs = []
     try:
         for step in case['history']:
             what = step[0]
             alive_now = [w for w in sim.workers if w.alive]
             lingering_at_start = [w for w in sim.workers if w.lingering]
+            if what == 'run_aborted':
+                if alive_now:
+                    out.label('run_aborted_by_input_source')
+                    res = sim.run(step[1], extra=step[2], fail_after=step[3])
+                    if res['kind'] == 'internal':
+                        out.viol('internal_error:' + res['exc'], res['where'] + ':aborted_run', f"{res['exc']}: {res['msg']}")
+                    elif res['kind'] in ('deadlock', 'livelock'):
+                        out.viol(res['kind'], 'aborted_run', 'Pool.run with a failing input source does not terminate')
+                    if any(w.queue for w in sim.workers if w.alive) or any(w.sent > w.read for w in sim.workers):
+                        after_abort = True
+                        out.label('inputs_or_results_outstanding_after_aborted_run')
+                for w in lingering_at_start:
+                    w.reap()
+                continue
             if what != 'run':
                 for w in lingering_at_start:       # by the time anything else is done with the pool the dead workers have really exited
                     w.reap()
@@ -345,7 +364,7 @@ def run_history(case):
                 seg = sim.trace[trace_start:]
                 kind = res['kind']
                 runs.append(kind)
-                site = 'run#%d' % len(runs)
+                site = 'run#%d' % len(runs) + (':after_aborted_run' if after_abort else '')
                 # enqueue attempts on workers whose death the pool already handled in an earlier run
                 for ev in seg:
                     if ev[0] in ('enqueued', 'enqueue_raised', 'enqueued_to_lingering'):
